@@ -39,7 +39,7 @@ MANIFEST = {
     "note": "trusted: numpy for the model; only the history dimension is decided",
     "technique": "deterministic replayable operation-history search against a reference model (stateful model-based testing on the seeded choice-sequence engine; no scheduler / faults apply)",
 }
-BUDGET = {"quick": (1500, 60), "thorough": (120000, 1200)}
+BUDGET = {"quick": (1500, 60), "thorough": (600000, 1200)}
 REQUIRED_PROBES = {"quick": ["op_write", "op_update", "op_plant", "op_write_masked_over_existing", "op_read_absent_masked", "op_on_alt_format"],
                    "thorough": ["op_write", "op_update", "op_plant", "op_delete", "op_write_masked_over_existing", "op_read_absent_masked", "op_fill", "op_buf_update", "neg_step_indexer", "op_nested_update", "op_held_read",
                                 "op_on_alt_format", "op_write_masked_over_existing_alt", "op_fill_index_arrays"]}
